@@ -4,14 +4,23 @@
 //! `NetworkReceiver` (kinds + timestamps); the probe records `(consumer replica, payload)` in
 //! arrival order. Engine cases run sequentially (the observer is process-global).
 //!
-//! header: `links <hosts> <cores> <S|F|A> <n> <shuffle|group> <ts 0|1>`
-//!         hosts = 1: `RuntimeConfig::local(cores)`; hosts = 2: two in-process hosts over loopback
+//! header: `links <hosts> <cores> <S|F|A> <n> <shuffle|group|bcast|split|join> <ts 0|1>`
+//!         hosts = 1: `RuntimeConfig::local(cores)`; hosts = 2, 3: in-process hosts over loopback
 //!         TCP (`RuntimeConfig::remote`, distinct 127.x.y.z addresses derived from the pid)
-//! ops:    `i <source replica> <value>`
+//!         shapes: shuffle / group: src+stamp -> (all-to-all) -> sink;  bcast: the same with `broadcast`
+//!         (every consumer replica gets every element);  split: src -> split(2) -> [stamp -> shuffle ->
+//!         sink | stamp -> group_by -> sink] (a block with two downstream blocks, four links);
+//!         join: [srcA+stamp | srcB+stamp] -> join (ship hash) -> sink: TWO upstream blocks feed the
+//!         same consumer block, so each consumer replica has two endpoints that differ only in
+//!         `prev_block_id` (the `sender_block_id` half of the frame tag).
+//! ops:    `i <source replica> <value>`, `j <source replica> <value>` (right input of `join`),
+//!         `stall <ms>` (shuffle/group on >= 2 hosts)
 //! outputs (sorted by pair; `|` separates batches):
 //!         `sent <p> <c> <elem>* (| <elem>*)*`   what producer p handed to the link towards c
 //!         `recv <p> <c> <kind>* (| <kind>*)*`   what consumer c took out of its channel from p
 //!         `probe <p> <c> <payload>*`            data seen by c's sink from p, in arrival order
+//!         `joined <c> <(l,r)>*`                 (join) the pairs c's sink saw, sorted
+//!         `misrouted <p> <c> <prev>`            a batch of block p.block taken from the endpoint of another prev block
 use std::collections::BTreeMap;
 use std::sync::atomic::{AtomicU64, Ordering};
 use std::sync::{Arc, Mutex};
@@ -28,6 +37,8 @@ type Payload = (u64, u64, u64, i64, i64); // producer block, host, replica, seq,
 static EVENTS: Mutex<Vec<LinkEvent>> = Mutex::new(Vec::new());
 /// (consumer, producer, payload text)
 static PROBE: Mutex<Vec<(Coord, Coord, String)>> = Mutex::new(Vec::new());
+/// (consumer, joined pair text)
+static JOINED: Mutex<Vec<(Coord, String)>> = Mutex::new(Vec::new());
 static RUN: AtomicU64 = AtomicU64::new(0);
 
 fn fmt_coord(c: Coord) -> String {
@@ -154,7 +165,10 @@ fn gen(rng: &mut Rng, i: usize) -> Case {
         let ms = if i == 0 { 1500 } else { *rng.pick(&[1200u64, 2500, 4500]) };
         return gen_stall(rng, i, ms);
     }
-    let hosts = if i % 3 == 2 { 2 } else { 1 };
+    if i % 10 == 7 {
+        return gen_muxstress(rng, i);
+    }
+    let hosts = if i % 7 == 5 { 3 } else if i % 3 == 2 { 2 } else { 1 };
     let cores = rng.range(1, 3);
     let (mode, n) = match rng.below(4) {
         0 => ("S", 1),
@@ -162,8 +176,9 @@ fn gen(rng: &mut Rng, i: usize) -> Case {
         2 => ("F", 3),
         _ => ("A", rng.range(2, 4)),
     };
-    let kind = if rng.chance(1, 2) { "shuffle" } else { "group" };
-    let ts = if rng.chance(1, 3) { "1" } else { "0" };
+    let kind = *rng.pick(&["shuffle", "shuffle", "group", "group", "bcast", "split", "split", "join", "join", "join"]);
+    // the hash join panics on timestamped elements
+    let ts = if kind != "join" && rng.chance(1, 3) { "1" } else { "0" };
     let mut c = Case::new(&["links", &hosts.to_string(), &cores.to_string(), mode, &n.to_string(), kind, ts]);
     let peers = hosts * cores;
     let count = match rng.below(4) {
@@ -173,7 +188,22 @@ fn gen(rng: &mut Rng, i: usize) -> Case {
     };
     for k in 0..count {
         let src = if rng.chance(1, 5) { 0 } else { rng.below(peers as u64) };
-        c.ops(vec!["i".into(), src.to_string(), (i as i64 * 1000 + k).to_string()]);
+        let side = if kind == "join" && rng.chance(1, 2) { "j" } else { "i" };
+        c.ops(vec![side.into(), src.to_string(), (i as i64 * 1000 + k).to_string()]);
+    }
+    c
+}
+
+/// Many single-element messages of three local senders interleave on ONE multiplexed connection per
+/// direction (2 hosts x 3 cores, `Single` or `Fixed(1)`, every source replica busy): the closest a
+/// whole-engine run gets to a component test of the multiplexer / demultiplexer threads.
+fn gen_muxstress(rng: &mut Rng, i: usize) -> Case {
+    let mode = if rng.chance(1, 2) { "S" } else { "F" };
+    let kind = if rng.chance(1, 2) { "shuffle" } else { "group" };
+    let mut c = Case::new(&["links", "2", "3", mode, "1", kind, "0"]);
+    let count = rng.range(300, 600);
+    for k in 0..count {
+        c.ops(vec!["i".into(), rng.below(6).to_string(), (i as i64 * 1000 + k).to_string()]);
     }
     c
 }
@@ -196,9 +226,11 @@ fn gen_stall(rng: &mut Rng, i: usize, stall_ms: u64) -> Case {
 
 struct Cfg {
     mode: BatchMode,
-    group: bool,
+    kind: String,
     ts: bool,
     items: Arc<Vec<(u64, i64)>>,
+    /// right input of `join`
+    items_b: Arc<Vec<(u64, i64)>>,
     /// (host of the stalling consumer, ms)
     stall: Option<(u64, u64)>,
 }
@@ -220,33 +252,55 @@ fn probe(consumer_item: &Payload, text: String) {
     PROBE.lock().unwrap().push((me, p, text));
 }
 
+fn stamp<Op>(s: Stream<Op>) -> Stream<impl Operator<Out = Payload>>
+where
+    Op: Operator<Out = (i64, i64)> + 'static,
+{
+    s.map(|(seq, v)| {
+        let c = replica_coord().expect("map outside a worker");
+        (c.block_id, c.host_id, c.replica_id, seq, v)
+    })
+}
+
+fn key(p: &Payload) -> i64 {
+    p.4.rem_euclid(3)
+}
+
 fn finish<Op>(s: Stream<Op>, cfg: &Cfg)
 where
     Op: Operator<Out = (i64, i64)> + 'static,
 {
-    let s = s
-        .map(|(seq, v)| {
-            let c = replica_coord().expect("map outside a worker");
-            (c.block_id, c.host_id, c.replica_id, seq, v)
-        })
-        .batch_mode(cfg.mode);
     let stall = cfg.stall;
-    if cfg.group {
-        s.group_by(|p: &Payload| p.4.rem_euclid(3)).for_each(move |(_k, p)| {
-            maybe_stall(stall);
-            probe(&p, fmt_payload(&p))
-        }); // the link carries the item only; the key is recomputed downstream
-    } else {
-        s.shuffle().for_each(move |p| {
-            maybe_stall(stall);
-            probe(&p, fmt_payload(&p))
-        });
+    match cfg.kind.as_str() {
+        "group" => {
+            stamp(s).batch_mode(cfg.mode).group_by(key).for_each(move |(_k, p)| {
+                maybe_stall(stall);
+                probe(&p, fmt_payload(&p))
+            }); // the link carries the item only; the key is recomputed downstream
+        }
+        "shuffle" => {
+            stamp(s).batch_mode(cfg.mode).shuffle().for_each(move |p| {
+                maybe_stall(stall);
+                probe(&p, fmt_payload(&p))
+            });
+        }
+        "bcast" => {
+            stamp(s).batch_mode(cfg.mode).broadcast().for_each(|p| probe(&p, fmt_payload(&p)));
+        }
+        "split" => {
+            // one block with two downstream blocks (forward links), each followed by an all-to-all link
+            let mut parts = s.batch_mode(cfg.mode).split(2);
+            let b = parts.pop().unwrap();
+            let a = parts.pop().unwrap();
+            stamp(a).shuffle().for_each(|p| probe(&p, fmt_payload(&p)));
+            stamp(b).group_by(key).for_each(|(_k, p)| probe(&p, fmt_payload(&p)));
+        }
+        k => panic!("bad kind {k}"),
     }
 }
 
-fn build(env: &StreamContext, cfg: &Cfg) {
-    let items = cfg.items.clone();
-    let src = env.stream_par_iter(move |id: u64, peers: u64| {
+fn source(env: &StreamContext, items: Arc<Vec<(u64, i64)>>) -> Stream<impl Operator<Out = (i64, i64)>> {
+    env.stream_par_iter(move |id: u64, peers: u64| {
         let mine: Vec<(i64, i64)> = items
             .iter()
             .filter(|(s, _)| s % peers == id)
@@ -254,8 +308,20 @@ fn build(env: &StreamContext, cfg: &Cfg) {
             .map(|(seq, (_, v))| (seq as i64, *v))
             .collect();
         mine.into_iter()
-    });
-    if cfg.ts {
+    })
+}
+
+fn build(env: &StreamContext, cfg: &Cfg) {
+    let src = source(env, cfg.items.clone());
+    if cfg.kind == "join" {
+        // two upstream blocks, both hash-partitioned (all-to-all) into the same consumer block
+        let a = stamp(src).batch_mode(cfg.mode);
+        let b = stamp(source(env, cfg.items_b.clone())).batch_mode(cfg.mode);
+        a.join(b, key, key).for_each(|(_k, (l, r))| {
+            let me = replica_coord().expect("sink outside a worker");
+            JOINED.lock().unwrap().push((me, format!("({},{})", fmt_payload(&l), fmt_payload(&r))));
+        });
+    } else if cfg.ts {
         finish(
             src.add_timestamps(|x: &(i64, i64)| x.0, |x: &(i64, i64), t: &i64| if x.0 % 3 == 2 { Some(*t) } else { None }),
             cfg,
@@ -325,18 +391,33 @@ fn exec(c: &Case) -> Vec<String> {
         .filter(|op| op[0] == "i")
         .map(|op| (op[1].parse().unwrap(), op[2].parse().unwrap()))
         .collect();
+    let items_b: Vec<(u64, i64)> = c
+        .ops
+        .iter()
+        .filter(|op| op[0] == "j")
+        .map(|op| (op[1].parse().unwrap(), op[2].parse().unwrap()))
+        .collect();
+    let kind = c.header[5].clone();
     let stall = c
         .ops
         .iter()
         .find(|op| op[0] == "stall" && op.len() == 2)
         .and_then(|op| op[1].parse::<u64>().ok())
-        .filter(|_| hosts >= 2)
+        .filter(|_| hosts >= 2 && (kind == "shuffle" || kind == "group"))
         .map(|ms| (hosts - 1, ms));
     STALLED.store(false, Ordering::SeqCst);
-    let cfg = Cfg { mode, group: c.header[5] == "group", ts: c.header[6] == "1", items: Arc::new(items), stall };
+    let cfg = Cfg {
+        mode,
+        kind: kind.clone(),
+        ts: c.header[6] == "1" && kind != "join",
+        items: Arc::new(items),
+        items_b: Arc::new(items_b),
+        stall,
+    };
 
     EVENTS.lock().unwrap().clear();
     PROBE.lock().unwrap().clear();
+    JOINED.lock().unwrap().clear();
     set_link_observer(Some(Arc::new(|e: &LinkEvent| EVENTS.lock().unwrap().push(e.clone()))), true);
     let res = run_job(hosts, cores, cfg);
     set_link_observer(None, false);
@@ -350,8 +431,19 @@ fn exec(c: &Case) -> Vec<String> {
     };
     let mut sent: BTreeMap<Key, Vec<String>> = BTreeMap::new();
     let mut recv: BTreeMap<Key, Vec<String>> = BTreeMap::new();
+    let mut misrouted = vec![];
     for e in EVENTS.lock().unwrap().iter() {
-        assert_eq!(e.prev_block_id, e.sender.block_id, "endpoint's prev block is the sender's block");
+        if e.prev_block_id != e.sender.block_id {
+            // a batch of block `sender.block` on the endpoint that belongs to another previous block
+            misrouted.push(format!(
+                "misrouted {} {} {} {}",
+                if e.send { "send" } else { "recv" },
+                fmt_coord(e.sender),
+                fmt_coord(e.dest),
+                e.prev_block_id
+            ));
+            continue;
+        }
         let k = key(e.prev_block_id, e.sender, e.dest);
         if e.send {
             let elems = json_elems(e.payload.as_deref().expect("send event without payload"));
@@ -388,12 +480,28 @@ fn exec(c: &Case) -> Vec<String> {
     for (k, v) in &sent {
         out.push(line("sent", k, v));
     }
-    for (k, v) in &recv {
-        out.push(line("recv", k, v));
+    // `join`: the binary Start takes its batches through `NetworkReceiver::select[_timeout]`, which
+    // are not hooked (`observe_recv` is only called by recv / try_recv / recv_timeout): the receive
+    // events are incomplete there, so they are not printed; the sink's joined pairs are the
+    // consumer-side observation for that shape.
+    if kind != "join" {
+        for (k, v) in &recv {
+            out.push(line("recv", k, v));
+        }
     }
     for (k, v) in &probe {
         out.push(line("probe", k, v));
     }
+    let mut joined: BTreeMap<(u64, u64, u64), Vec<String>> = BTreeMap::new();
+    for (me, text) in JOINED.lock().unwrap().iter() {
+        joined.entry((me.block_id, me.host_id, me.replica_id)).or_default().push(text.clone());
+    }
+    for (c, mut v) in joined {
+        v.sort();
+        out.push(format!("joined {} {}", fmt_coord(Coord::new(c.0, c.1, c.2)), v.join(" ")));
+    }
+    misrouted.sort();
+    out.extend(misrouted);
     out
 }
 
